@@ -81,6 +81,47 @@ def arm_tables(crate, fn, mode):
     return out
 
 
+def string_block_size_enforced(ctx, c, pid):
+    """the string-block size announced by the header is enforced on read: an exact read into a buffer of that size, or a
+    comparison of the bytes actually read with it (shared by C17 — size formula — and C20 — truncated input must fail)"""
+    R = ctx.rule("%s.declared-string-block-size-enforced" % pid, "StringBlock::parse reads exactly `size` bytes (read_exact into a buffer of that length) or compares the length it got with `size` and fails", floor=1)
+    f = next((f for f in c.fn_list if f.hir and f.kind != "Closure" and norm(f.path) == "wow_cdbc::stringblock::StringBlock::parse"), None)
+    if f is None:
+        ctx.bad(R, "StringBlock::parse|missing", "-", "function not found", "anchor gone")
+        return
+    ctx.saw_fn(f)
+    body = f.hir["body"]
+    names = [b for p in f.hir["params"] for b in hirq.pat_binds(p)]
+    size = next((n for n in names if "size" in n or "len" in n), None)
+    lets = {l["pat"]["name"]: l["init"] for l in hirq.find(body, "let") if l["pat"].get("k") == "bind" and l.get("init") is not None}
+
+    def mentions(n, nm, depth=0):
+        for x in hirq.walk(n):
+            if x.get("k") == "path" and x["res"].get("local") == nm:
+                return True
+            if x.get("k") == "path" and x["res"].get("local") in lets and depth < 3 and mentions(lets[x["res"]["local"]], nm, depth + 1):
+                return True
+        return False
+    exact = False
+    for c_ in hirq.walk(body):
+        if c_.get("k") == "mcall" and c_["m"] == "read_exact" and c_.get("args"):
+            buf = hirq.strip(c_["args"][0])
+            if buf.get("k") == "path" and buf["res"].get("local") in lets:
+                init = lets[buf["res"]["local"]]
+                if any((x.get("fn") or "").endswith("from_elem") and size and mentions(x, size) for x in hirq.calls(init)):
+                    exact = True
+    compared = False
+    for n in hirq.find(body, "if"):
+        cnd = n["c"]
+        if size and mentions(cnd, size) and ".len()" in hirq.render(cnd) and any(x.get("k") == "ret" or x.get("k") == "try" or "Err" in hirq.render(x) for x in hirq.walk(n["then"])):
+            compared = True
+    if exact or compared:
+        ctx.ok(R, {"fn": norm(f.path), "exact_read": exact, "length_compared": compared})
+    else:
+        ctx.bad(R, "StringBlock::parse|size-not-enforced", f.where, "`%s` neither sizes a read_exact buffer nor is compared with the number of bytes read" % size,
+                "a table truncated inside its string block parses successfully with a short block: later string references resolve to cut-off text or fail lazily, `dbc validate/info/export` exit 0 on a truncated file, and the size formula header + records + strings no longer describes the file")
+
+
 def run(ctx):
     prog = ctx.prog
     c = prog.crate(C)
@@ -113,6 +154,8 @@ def run(ctx):
             ctx.ok(R_drop, {"fn": p_})
     if control == 0:
         ctx.bad(R_drop, "control|adapter-recognition", "-", "the adapter pattern matched no call anywhere in wow_cdbc (positive control: RecordSet::create_sorted_key_map uses filter_map)", "the rule could not see a violation if there were one")
+
+    string_block_size_enforced(ctx, c, "C17")
 
     # the writer emits header, records and string block on every success path
     R_parts = ctx.rule("C17.writer-success-passes-all-parts", "every Ok exit of write_records is dominated by the header writes and passes the record loop head and the string-block write", floor=1)
